@@ -135,7 +135,7 @@ claim("C04", "other",
       "layer; two defects found by it (code re-split at Unicode separators, blank line inserted inside fenced code) were repaired.",
       _PIPE_NOTE + " _min_fence_length (regex scan) is an assumed contract checked against an independent spec on a function "
       "sweep; _link_destination (plain or <...> form of a destination) is an assumed contract checked by a round-trip sweep through "
-      "the parser; what _normalize_title_quotes does inside a title is the recorded finding; coalesce_raw_text_nodes is not under contract.",
+      "the parser; what _normalize_title_quotes does inside a title is the recorded finding; of coalesce_raw_text_nodes the structure (which nodes are merged / kept, stores only into RawText) is discharged, the joined text is a bounded function sweep.",
       "contract-based deductive verification of the wiring (AST->VC + z3); bounded literal-span comparison as stand-in",
       "DESIGN.md §3 C04")
 claim("C06", "other",
@@ -170,7 +170,7 @@ claim("C08", "other",
       "unchecked congruence lemma and is checked exhaustively on all strings up to length 4/5 over a 13-symbol alphabet and "
       "on the document space (option on vs off).",
       "re.sub decomposition and L-congruence(Q) assumed; the mapping back into the tree is discharged "
-      "(_collect_inline_segments, rewrite_text_across_inlines transformer, transform_tree); coalesce_raw_text_nodes and the "
+      "(_collect_inline_segments, rewrite_text_across_inlines transformer, transform_tree, coalesce_raw_text_nodes: only RawText-softbreak-RawText runs are merged, every other node kept in order); the joined text of a run and the "
       "apostrophe loop of _apply_smart_quotes_to_text are bounded only.",
       "contract-based deductive verification of the rewrite callback (AST->VC + z3, group structure from re._parser); "
       "exhaustive short-string and document differential as bounded stand-in", "DESIGN.md §3 C08")
@@ -181,7 +181,7 @@ claim("C09", "other",
       "rewrite_text_content(ellipses, coalesce_lines=True), guarded by its option. Idempotence of the rewrite cannot be decided "
       "by a contract and is checked exhaustively on short strings.",
       "re.sub decomposition and L-congruence(D) assumed; rewrite_text_content's transformer and transform_tree are under "
-      "contract, coalesce_raw_text_nodes is not (document-level differential only); one known finding (ellipsis at a text-node boundary) shared with C02.",
+      "contract, as is the structure of coalesce_raw_text_nodes (merged runs; the joined text is a bounded sweep); one known finding (ellipsis at a text-node boundary) shared with C02.",
       "contract-based deductive verification of the rewrite callback (AST->VC + z3); exhaustive short-string idempotence and "
       "document differential as bounded stand-in", "DESIGN.md §3 C09")
 claim("C17", "proof",
